@@ -78,3 +78,25 @@ Definition prefix_spec (data : list N) :=
 
 Definition block_is_sync (b : block) : bool :=
   is_kind Stored b && match b_tokens b with [] => true | _ => false end.
+
+(* ring-window semantics (C04, wrapping mode): bytes before the start of the stream read the
+   caller's buffer contents, here a buffer of [len] bytes all equal to [fill] *)
+Definition spec_ring (zl check : bool) (len fill : N) (data : list N) : sres :=
+  let pre := repeat fill (N.to_nat len) in
+  let body_spec (body : list N) := inflate_spec_bits pre (bits_of_bytes body) in
+  if zl then
+    match data with
+    | cmf :: flg :: body =>
+        if negb (zlib_header_ok cmf flg) then SErr EZlibHeader
+        else
+          match body_spec body with
+          | SDone out n bs =>
+              let trailer := firstn 4 (skipn (N.to_nat n) body) in
+              if Nat.ltb (length trailer) 4 then STrunc
+              else if check && negb (be32_val trailer =? Adler.adler32 1 out) then SErr EAdler
+              else SDone out (n + 6) bs
+          | r => r
+          end
+    | _ => STrunc
+    end
+  else body_spec data.
